@@ -236,3 +236,38 @@ package ed25519
 //@   ensures result2 == nil ==> (len(result1) == len(publicKeys) && fresh(result1))
 //@   ensures result2 == nil ==> g1(publicKeys, messages, sigs, *opts, result1)
 //@   ensures result2 == nil ==> (result0 == forall(k, 0, len(publicKeys), result1[k]))
+
+// ---------------- C03: what the library signs, it accepts ----------------
+// verifRoundTrip (verif_hooks.go, build tag verif) is "derive the key, sign, verify"; its contract
+// is checked against the CONTRACTS of NewKeyFromSeed, sign and verify. The mathematical facts used:
+//   RTDEC   encoding round trip: enc(X) decodes, to X                                    [B11]
+//   RTMODL  [x]B depends on x mod L only; RTNEUT [x]B = O iff L | x  (B has order L)      [M4]
+//   RTLC/RTSUB/GDBL  arithmetic of multiples of B                                         [M2]
+//   RTCLAMP a clamped scalar (2^254 <= a < 2^255, 8 | a) is not a multiple of L mod cofactor: L does not divide 8a   [arithmetic: 8a = kL forces 64 | k, but k < 64]
+//   RTCOP   L | 8x implies L | x (L is odd)                                               [arithmetic]
+//@ axiom RTDEC [B11]: allS(X, Pt, decodable(encpt(X)) && decpt(encpt(X)) == X)
+//@ axiom RTMODL [M4]: all(x, mulB(x) == mulB(x % L))
+//@ axiom RTNEUT [M4]: all(x, isneutral(mulB(x)) == (x % L == 0))
+//@ axiom RTLC [M2]: all(a, all(h, all(s, lc2(pneg(mulB(a)), h, s) == mulB(s - h * a))))
+//@ axiom RTSUB [M2]: all(x, all(y, psub(mulB(x), mulB(y)) == mulB(x - y)))
+//@ axiom RTCLAMP [M4]: all(a, ((1<<254) <= a && a < (1<<255) && a % 8 == 0) ==> (8 * a) % L != 0)
+//@ axiom RTCOP [M4]: all(x, (8 * x) % L == 0 ==> x % L == 0)
+//@ func verifRoundTrip(seed, message, f, c, zip215)
+//@   uses RTDEC, RTMODL, RTNEUT, RTLC, RTSUB, RTCLAMP, RTCOP, GDBL
+//@   requires len(seed) == 32 && (f == fPure || len(c) <= 255)
+//@   requires nonce(seed, f, bytesOf(c), len(c), bytesOf(message)) != 0
+//@   modifies nothing
+//@   lemma after call NewKeyFromSeed#1 : sec_a(priv) == sec_a(seed) && nonce(priv, f, bytesOf(c), len(c), bytesOf(message)) == nonce(seed, f, bytesOf(c), len(c), bytesOf(message))
+//@   lemma after call NewKeyFromSeed#1 : (1<<254) <= sec_a(priv) && sec_a(priv) < (1<<255) && sec_a(priv) % 8 == 0
+//@   lemma after call NewKeyFromSeed#1 : decodable(bytesOf(priv[32:64])) && decpt(bytesOf(priv[32:64])) == mulB(sec_a(priv))
+//@   lemma after call NewKeyFromSeed#1 : !small(bytesOf(priv[32:64]))
+//@   lemma after call sign#1 : decodable(bytesOf(sig[0:32])) && decpt(bytesOf(sig[0:32])) == mulB(nonce(priv, f, bytesOf(c), len(c), bytesOf(message)))
+//@   lemma after call sign#1 : !small(bytesOf(sig[0:32]))
+// the instance of RTLC (a multiple of -A plus a multiple of B) for this key, challenge and S, stated explicitly
+//@   lemma after call sign#1 : true ;; assume lc2(pneg(mulB(sec_a(priv))), hchal(f, bytesOf(c), len(c), bytesOf(sig[0:32]), bytesOf(priv[32:64]), bytesOf(message)), le(sig[32:64])) == mulB(le(sig[32:64]) - hchal(f, bytesOf(c), len(c), bytesOf(sig[0:32]), bytesOf(priv[32:64]), bytesOf(message)) * sec_a(priv))
+//@   lemma after call sign#1 : lc2(pneg(decpt(bytesOf(priv[32:64]))), hchal(f, bytesOf(c), len(c), bytesOf(sig[0:32]), bytesOf(priv[32:64]), bytesOf(message)), le(sig[32:64])) == mulB(le(sig[32:64]) - hchal(f, bytesOf(c), len(c), bytesOf(sig[0:32]), bytesOf(priv[32:64]), bytesOf(message)) * sec_a(priv))
+//@   lemma after call sign#1 : psub(lc2(pneg(decpt(bytesOf(priv[32:64]))), hchal(f, bytesOf(c), len(c), bytesOf(sig[0:32]), bytesOf(priv[32:64]), bytesOf(message)), le(sig[32:64])), decpt(bytesOf(sig[0:32]))) == mulB(le(sig[32:64]) - hchal(f, bytesOf(c), len(c), bytesOf(sig[0:32]), bytesOf(priv[32:64]), bytesOf(message)) * sec_a(priv) - nonce(priv, f, bytesOf(c), len(c), bytesOf(message)))
+//@   lemma after call sign#1 : smul8(psub(lc2(pneg(decpt(bytesOf(priv[32:64]))), hchal(f, bytesOf(c), len(c), bytesOf(sig[0:32]), bytesOf(priv[32:64]), bytesOf(message)), le(sig[32:64])), decpt(bytesOf(sig[0:32])))) == mulB(8 * (le(sig[32:64]) - hchal(f, bytesOf(c), len(c), bytesOf(sig[0:32]), bytesOf(priv[32:64]), bytesOf(message)) * sec_a(priv) - nonce(priv, f, bytesOf(c), len(c), bytesOf(message))))
+//@   lemma after call sign#1 : (8 * (le(sig[32:64]) - hchal(f, bytesOf(c), len(c), bytesOf(sig[0:32]), bytesOf(priv[32:64]), bytesOf(message)) * sec_a(priv) - nonce(priv, f, bytesOf(c), len(c), bytesOf(message)))) % L == 0
+//@   lemma after call sign#1 : isneutral(smul8(psub(lc2(pneg(decpt(bytesOf(priv[32:64]))), hchal(f, bytesOf(c), len(c), bytesOf(sig[0:32]), bytesOf(priv[32:64]), bytesOf(message)), le(sig[32:64])), decpt(bytesOf(sig[0:32])))))
+//@   ensures result == true
